@@ -2,11 +2,21 @@ check("C03", "model_checking",
       "SyltMismatch (TLA+) states the property's list of definite mismatches as a table (planted form, the well-typed base it replaces, the typing "
       "rule it violates; operator and list forms are decided by the spec's own operator table) and the contexts a mismatch can sit in (global "
       "initialiser, function/closure/method body, if/elif/else branch and condition, case arm/else, loop body/condition, call argument, blob field, "
-      "list/tuple element, unused expression statement, operand, return expression, function passed as argument, ...). TLC checks the universe's "
-      "sanity (every type-compatible context x mismatch cell inhabited, planted # base), emits every mismatch in every fitting context chain of "
-      "length <= 2 (quick) / 3 (thorough) as a base and a planted program, and then validates the compile results recorded from the real compiler: "
-      "the records must be exactly the spec's universe, the base accepted, the planted program Err with >= 1 error and zero bytes of Lua. "
-      "Bounded-exhaustive over that product, not a proof.",
-      "Trusted: TLC, the table MM as the reading of 'definite type mismatch' (literals and prelude functions only; no type inference in the spec), "
-      "the printer (guarded: base must compile, planted text must differ), vharness::project::compile_opts as the observation of errors and bytes written.",
-      "TLA+ mismatch x context-chain universe + TLC validation of recorded compile results", "DESIGN.md 5.5, 8/C03")
+      "list/tuple element, unused expression statement, operand, return expression, function passed as argument, ...). SyltArrival adds the dimension "
+      "HOW THE MISMATCHING OPERANDS ARRIVE: 60 cores (the table's kinds over operand slots with a planted and a base type vector, plus cores whose "
+      "rule is a generic signature: user functions linking positions by *A - also first mentioned inside a nested function type and reused afterwards "
+      "and vice versa, one or two levels deep - and std map/filter/fold/push/set/contains/for_each) x 38 arrival forms (literal, constant/mutable "
+      "local, global, blob field, tuple component, list element through std, case binding, captured variable, result of a user function / generic "
+      "identity, parameter of an annotated function, parameter of an UN-ANNOTATED function called with literals / variables / call results - one "
+      "shared function or two nested closures, immediate / local / global); definiteness is decided by the spec's core typing table over the explicit "
+      "types the forms deliver. TLC checks the universes' sanity, emits every table mismatch in every fitting context chain of length <= 2 (quick) / 3 "
+      "(thorough) and every core x form vector in every top alone, the plainest statement positions and a seeded sample of the chains of length 2 "
+      "(quick) / all chains <= 2 and every ordered pair of forms (thorough) as a base and a planted program, and validates the compile results recorded "
+      "from the real compiler: the records must be exactly the spec's universe, the base accepted, the planted program Err with >= 1 error and zero bytes "
+      "of Lua. Bounded-exhaustive over that product, not a proof. An un-annotated function used at two incompatible types by two call sites is accepted "
+      "by design (per-call instantiation) and is not planted.",
+      "Trusted: TLC, the tables MM / Cores and the core typing table as the reading of 'definite type mismatch' (explicit types only; no type inference "
+      "in the spec), the printer (guarded: base must compile for every kind, core, form and derived mismatch; planted text must differ), "
+      "vharness::project::compile_opts as the observation of errors and bytes written. Known finding C03.H1 (mismatch between an un-annotated parameter "
+      "and an un-annotated parameter of a closure nested in the same function is accepted).",
+      "TLA+ mismatch x arrival-form x context-chain universe + TLC validation of recorded compile results", "DESIGN.md 5.5, 8/C03; docs/C03.md")
